@@ -79,6 +79,28 @@ def lemma_axioms() -> list[z3.BoolRef]:
     return out
 
 
+class _ArrView:
+    """A raw Bool array usable where contracts expect a boolean sequence (indexing, cnt)."""
+
+    def __init__(self, arr):
+        self.arr = arr
+        self.t = None
+
+    def __getitem__(self, i):
+        return z3.Select(self.arr, i)
+
+    class _Ty:
+        def __init__(self, arr):
+            self._a = arr
+
+        def arr(self, t):
+            return self._a
+
+    @property
+    def ty(self):
+        return _ArrView._Ty(self.arr)
+
+
 def _has_ite(t) -> bool:
     seen, stack = set(), [t]
     while stack:
@@ -238,6 +260,18 @@ class _Sym:
     def untag(self, x, tag):
         return unwrap(Val(x.ty.alt_ty(tag), x.ty.get(tag, x.t)))
 
+    def defarray(self, name: str, args: list, pred: Callable, n=None):
+        """A boolean spec array defined pointwise: the term `name(args)` (a function of the arguments, so every
+        mention denotes the same array) and its defining axiom.  Returns (array-as-Seq-like, axiom)."""
+        vals = [wrap(x) for x in args]
+        key = ("defarray", name, tuple(v.ty.name for v in vals))
+        if key not in _UFS:
+            _UFS[key] = z3.Function(name, *[v.ty.sort() for v in vals], BoolArr)
+        arr = _UFS[key](*[v.t for v in vals])
+        i = z3.Int(fresh_name("da"))
+        ax = z3.ForAll([i], z3.Select(arr, i) == pred(i), patterns=[z3.Select(arr, i)])
+        return _ArrView(arr), ax
+
     # uninterpreted spec functions with an executable definition on the CONC side
     def uf(self, name: str, ret: Ty, *args):
         vals = [wrap(x) for x in args]
@@ -276,6 +310,9 @@ class _Conc:
 
     def uf(self, name, ret, *args):
         return CONC_IMPL[name](*args)
+
+    def defarray(self, name, args, pred, n=None):
+        return [bool(pred(i)) for i in range(n)], True
 
     def forall_key(self, ty, fn, pattern=None, domain=()):
         return all(bool(fn(k)) for k in domain)
